@@ -50,7 +50,7 @@ def make(topology='chain', hier='flat', kinds=None, partials='dense', palette=0,
                wiring of the first connection p -> c1.x0 (x0 size follows the index result)
     scaling  : {'c1.y': dict(ref=, ref0=, res_ref=)}  solver scaling per output ('ivc.p' allowed)
     """
-    topo = TOPO[topology]
+    topo = TOPO[topology] if isinstance(topology, str) else [(c, list(srcs)) for c, srcs in topology]
     kinds = kinds or {}
     units = units or {}
     sz = dict(SIZES)
@@ -203,7 +203,7 @@ def make(topology='chain', hier='flat', kinds=None, partials='dense', palette=0,
     if responses is None:
         last = names[-1] if topology != 'irrel' else 'c2'
         responses = [{'name': last + '.y', 'type': 'obj' if sz[last] == 1 else 'con'}]
-        if len(names) > 1 and topology not in ('irrel',):
+        if len(names) > 1 and topology != 'irrel':
             responses.append({'name': names[0] + '.y', 'type': 'con'})
     for r in responses:
         d = dict(r)
